@@ -1006,6 +1006,18 @@ pub fn gcase_for_c06() -> BoxedStrategy<QCase> {
     gcase()
 }
 
+/// For C06: only a panic is C06's business; a disagreement with the reference map is C11's.
 pub fn o_case_pub(c: &QCase, st: &mut Stats) -> Result<(), String> {
-    o_case(c, st).map(|()| st.nontrivial(&(&c.init, &c.ops, "c06"), || json!({ "ops": c.ops.len() })))
+    match o_case(c, st) {
+        Err(m) if m.contains("panicked") || m.contains("panic escaped") => Err(m),
+        _ => {
+            st.nontrivial(&(&c.init, &c.ops, "c06"), || json!({ "ops": c.ops.len() }));
+            Ok(())
+        },
+    }
+}
+
+/// For the fuzz target `fz_api` without a scope: the full model-based judgement.
+pub fn o_case_full(c: &QCase, st: &mut Stats) -> Result<(), String> {
+    o_case(c, st)
 }
